@@ -48,13 +48,9 @@ theorem born_split {N : ℕ} (t : Fin N) (ψ : Vec N) :
     normSqV (projV t 0 ψ) + normSqV (projV t 1 ψ) = normSqV ψ :=
   QipVerif.Sim.born_split t ψ
 
--- non-vacuity: the vector |00⟩+|11⟩ on two qubits, qubit 1
+-- non-vacuity: the uniform vector on two qubits is non-zero and splits on qubit 1
 example : ∃ ψ : Vec 2, normSqV ψ ≠ 0 ∧ normSqV (projV 1 0 ψ) + normSqV (projV 1 1 ψ) = normSqV ψ :=
-  ⟨fun x => if x 0 = x 1 then 1 else 0, by
-    unfold normSqV
-    rw [Fintype.sum_eq_add_sum_compl (fun _ => (0 : Fin 2))]
-    simp
-    positivity, QipVerif.Sim.born_split 1 _⟩
+  ⟨fun _ => 1, by simp [normSqV], QipVerif.Sim.born_split 1 _⟩
 
 /-- **probs_sum_one.** For every circuit, initial bits and state: the probabilities of all `2^m` records sum to one,
 and so do those of the surviving (non-pruned) records — the list `run_statistics` returns.  `BornOk B` is the only
@@ -86,14 +82,22 @@ theorem postselect_eq_branch {Q P : Type} [One P] [Mul P] (B : Backend Q P) (cfg
       (∀ s, w'.sim = some s → s.cbits.map w'.heap.get = b.bits) := by
   intro b
   rw [run_fresh B cfg .sv c w st cb (some r) hf]
-  obtain ⟨hres, hbits⟩ := coreRun_eq_branch B cfg c hc _ (initBits_ok c _) st r hr (some r) w.rng (Or.inl rfl)
-  refine ⟨_, _, by simp only [mkResult, hres]; rfl, rfl, rfl, by simp [hbits, b], ?_⟩
+  obtain ⟨hres, hbits⟩ := coreRun_eq_branch B cfg c hc (initBits c (cb.map w.heap.get)) (initBits_ok c _) st r hr
+    (some r) w.rng (Or.inl rfl)
+  dsimp only
+  generalize coreRun B cfg .sv c (initBits c (cb.map w.heap.get)) st (some r) w.rng = ro at hres hbits ⊢
+  obtain ⟨cbf, hmk⟩ : ∃ cbf, mkResult ro (ro.bits.map (fun _ => w.heap.size)) =
+      .ok { states := [b.st], probs := [b.prob], cbits := cbf } := by
+    unfold mkResult; rw [hres]; exact ⟨_, rfl⟩
+  rw [hmk]
+  refine ⟨_, _, rfl, rfl, rfl, by simp only [hbits]; rfl, ?_⟩
   intro s hs
   cases hs
-  rw [hbits]
-  cases hb : (branch B c (initBits c (cb.map w.heap.get)) st r).bits with
+  simp only
+  rw [← hbits]
+  cases hb : ro.bits with
   | none => rfl
-  | some l => simp [Heap.get, Heap.size, List.getD_eq_getElem?_getD, b]
+  | some l => simp [Heap.get, Heap.size, List.getD_eq_getElem?_getD]
 
 /-- a pruned prescribed record is reported with probability zero -/
 theorem postselect_pruned_prob_zero {Q P : Type} [Semiring P] (B : Backend Q P) (hB : BornOk B) (c : Circuit)
@@ -116,13 +120,20 @@ theorem unconstrained_run_mem_branches {Q P : Type} [One P] [Mul P] (B : Backend
   intro b
   constructor
   · rw [run_fresh B cfg .sv c w st cb none hf]
-    obtain ⟨hres, hbits⟩ := coreRun_eq_branch B cfg c hc _ (initBits_ok c _) st r (records_isRecord c r hr) none w.rng
-      (Or.inr ⟨rfl, tail, hrng⟩)
-    refine ⟨_, _, by simp only [mkResult, hres]; rfl, rfl, rfl, ?_⟩
+    obtain ⟨hres, hbits⟩ := coreRun_eq_branch B cfg c hc (initBits c (cb.map w.heap.get)) (initBits_ok c _) st r
+      (records_isRecord c r hr) none w.rng (Or.inr ⟨rfl, tail, hrng⟩)
+    dsimp only
+    generalize coreRun B cfg .sv c (initBits c (cb.map w.heap.get)) st none w.rng = ro at hres hbits ⊢
+    obtain ⟨cbf, hmk⟩ : ∃ cbf, mkResult ro (ro.bits.map (fun _ => w.heap.size)) =
+        .ok { states := [b.st], probs := [b.prob], cbits := cbf } := by
+      unfold mkResult; rw [hres]; exact ⟨_, rfl⟩
+    rw [hmk]
+    refine ⟨_, _, rfl, rfl, rfl, ?_⟩
     intro s hs
     cases hs
-    rw [hbits]
-    cases hb : (branch B c (initBits c (cb.map w.heap.get)) st r).bits with
+    simp only
+    rw [← hbits]
+    cases hb : ro.bits with
     | none => rfl
     | some l => simp [Heap.get, Heap.size, List.getD_eq_getElem?_getD]
   · rw [List.mem_filter]
